@@ -60,10 +60,10 @@ const (
 var stageNames = []string{"footer_parsed", "toc_parsed", "tree_built", "file_opened", "bytes_read"}
 
 const (
-	maxVisits   = 1500
+	maxVisits   = 600
 	maxDepth    = 24
-	maxChildren = 150
-	maxFiles    = 32
+	maxChildren = 100
+	maxFiles    = 6
 	maxReadBuf  = 32 << 10
 )
 
@@ -176,11 +176,14 @@ func (c *caseRun) replay() map[string]any {
 func (c *caseRun) stage(name string, f func()) {
 	c.cur.Store(name)
 	c.r.Count("stage_runs", 1)
-	t0 := time.Now()
+	var t0 time.Duration
+	if stageTiming != nil {
+		t0 = cpuNow()
+	}
 	p, val, stack := vf.Recover(f)
 	if stageTiming != nil {
 		stageTimingMu.Lock()
-		stageTiming[name] += time.Since(t0)
+		stageTiming[name] += cpuNow() - t0 // process CPU time (meaningful in solo runs)
 		stageTimingMu.Unlock()
 	}
 	if !p {
@@ -363,12 +366,14 @@ func (c *caseRun) unpackAll(b, ext []byte) {
 // S2: estargz.Open + every Reader method on every entry reached by a bounded walk
 
 func readOffsets(size int64, bounds []int64) []int64 {
-	offs := []int64{0, 1, size / 2, size - 1, size, size + 1, -1, math.MaxInt64, math.MinInt64}
+	// 0, the start of the second chunk and the last byte cost a decompressor each; the
+	// others are answered without touching the payload
+	offs := []int64{0, size - 1, size, -1, math.MaxInt64}
 	for _, b := range bounds {
-		offs = append(offs, b-1, b, b+1)
-	}
-	if len(offs) > 40 {
-		offs = offs[:40]
+		if b > 0 {
+			offs = append(offs, b)
+			break
+		}
 	}
 	return offs
 }
@@ -423,7 +428,7 @@ func (c *caseRun) openEstargz() {
 			if l, ok := r.Lookup(e.Name); ok && l != nil {
 				_ = l.Name
 			}
-			for _, off := range []int64{0, 1, e.Size - 1, e.Size, -1, math.MaxInt64} {
+			for _, off := range []int64{0, e.Size - 1, e.Size, -1} {
 				if ce, ok := r.ChunkEntryForOffset(e.Name, off); ok && ce != nil {
 					_ = ce.ChunkOffset
 				}
@@ -458,7 +463,7 @@ func (c *caseRun) openEstargz() {
 				_ = e.Stat().Mode()
 			}
 			_, _ = r.ChunkEntryForOffset(n, 0)
-			if i < 40 {
+			if i < 8 {
 				if sr, err := r.OpenFile(n); err == nil {
 					_, _ = sr.ReadAt(make([]byte, 8), 0)
 				}
@@ -533,7 +538,7 @@ func (c *caseRun) openEstargz() {
 				c.err("estargz.OpenFileWithPreReader", err)
 				return
 			}
-			for _, o := range []int64{0, size / 2, size - 1} {
+			for _, o := range []int64{size / 2} {
 				if _, err := pr.ReadAt(buf, o); err != nil && err != io.EOF {
 					c.err("estargz.file(preread).ReadAt", err)
 				}
@@ -692,7 +697,7 @@ func (c *caseRun) metaChain(store string) {
 				c.err(store+".OpenFileWithPreReader", err)
 				return
 			}
-			for _, o := range []int64{0, fr.size / 2, fr.size - 1} {
+			for _, o := range []int64{fr.size / 2} {
 				if _, err := pf.ReadAt(buf, o); err != nil && err != io.EOF {
 					c.err(store+".file(preread).ReadAt", err)
 				}
@@ -819,9 +824,12 @@ func (c *caseRun) readerChain(store string, mr metadata.Reader, files []fileRef)
 					if o < 0 {
 						continue // the kernel never issues negative offsets
 					}
-					for _, bl := range []int{len(buf), 1, 7} {
+					for k, bl := range []int{len(buf), 7} {
 						if bl > len(buf) {
 							bl = len(buf)
+						}
+						if k > 0 && o != 0 {
+							break
 						}
 						got, err := ra.ReadAt(buf[:bl], o)
 						if err != nil && err != io.EOF {
@@ -829,9 +837,6 @@ func (c *caseRun) readerChain(store string, mr metadata.Reader, files []fileRef)
 						}
 						if got > 0 {
 							c.mark(stRead)
-						}
-						if len(offs) > 12 && bl != len(buf) {
-							break
 						}
 					}
 				}
@@ -1062,11 +1067,14 @@ func (c *caseRun) walkNodes(store string, root *nodefs.N) {
 				}
 				c.mark(stOpen)
 				size := int64(attr.Size)
-				for _, o := range []int64{0, 1, 63, 64, 65, size / 2, size - 1, size, size + 1, math.MaxInt64 - 70000} {
+				for k, o := range []int64{0, 65, size - 1, size, math.MaxInt64 - 70000} {
 					if o < 0 {
 						continue
 					}
-					for _, sz := range []int{maxReadBuf, 1, 4096} {
+					for j, sz := range []int{maxReadBuf, 1} {
+						if j > 0 && k > 0 {
+							break
+						}
 						got, errno := nodefs.Read(fh, o, sz)
 						if errno != 0 {
 							c.err("file.Read", errno)
